@@ -57,16 +57,17 @@ def trigger_run(ctx):
     def do(snapshot, **kw):
         fired.append((snapshot.row_id, snapshot.timestamp, kw))
 
+    sub = bool(p.get("subsecond"))
     if kind == "at_time":
-        t1 = sym_datetime(ctx, "t1_s", bars.START, lo, hi)
+        t1 = sym_datetime(ctx, "t1_s", bars.START, lo, hi, subsecond=sub)
         trg = T.AtTimeTrigger(t1, do, a=kw_a, tag="x")
     elif kind == "at_times":
         t1 = sym_datetime(ctx, "t1_s", bars.START, lo, hi)
         t2 = sym_datetime(ctx, "t2_s", bars.START, lo, hi)
         trg = T.AtTimesTrigger([t1, t2], do, a=kw_a, tag="x")
     elif kind == "range":
-        t1 = sym_datetime(ctx, "t1_s", bars.START, lo, hi)
-        t2 = sym_datetime(ctx, "t2_s", bars.START, lo, hi)
+        t1 = sym_datetime(ctx, "t1_s", bars.START, lo, hi, subsecond=sub)
+        t2 = sym_datetime(ctx, "t2_s", bars.START, lo, hi, subsecond=sub)
         trg = T.TimeRangeTrigger(T.TimeRange(t1, t2), do, a=kw_a, tag="x")
     elif kind == "ranges":
         t1 = sym_datetime(ctx, "t1_s", bars.START, lo, hi)
@@ -88,8 +89,17 @@ def trigger_run(ctx):
     else:
         raise ValueError(kind)
 
+    comp_fired = []
+    comp = None
+    if p.get("companion"):
+        # another trigger ahead of the one under test in the strategy's list: it retires on some bar of the run
+        tc = sym_datetime(ctx, "companion_s", bars.START, 0, (n - 1) * S)
+        comp = T.AtTimeTrigger(tc, lambda snapshot, **kw: comp_fired.append(snapshot.row_id))
+
     class Strat(Strategy):
         def initialize(self):
+            if comp is not None:
+                self.triggers.append(comp)
             self.triggers.append(trg)
 
         def after_bar(self, snapshot):
@@ -166,6 +176,12 @@ def scenarios(tier):
                     entry=("Actuator.run", f"trigger {kind}: when/do/is_out_date"), canary="CANARY trigger never fires", max_paths=4000, time_budget_s=400, nlsat=False, witness_cap=30,
                 )
             )
+    # times with a sub-second part (the specification rounds trigger times down to the minute)
+    for kind in ("at_time", "range"):
+        out.append(Scenario(f"{kind}/1min/n4/subsecond", trigger_run, params=dict(kind=kind, bars=4, step_min=1, subsecond=True), shadows=SHADOWS, entry=("Actuator.run", "to_minute", f"trigger {kind}"), canary="CANARY trigger never fires", max_paths=4000, time_budget_s=400, nlsat=False, witness_cap=30))
+    # a second trigger ahead in the list that retires during the run: every trigger is still evaluated on every bar
+    for kind in ("at_time", "period", "range"):
+        out.append(Scenario(f"{kind}/1min/n4/with_retiring_companion", trigger_run, params=dict(kind=kind, bars=4, step_min=1, companion=True), shadows=SHADOWS, entry=("Actuator.run", f"trigger {kind}"), canary="CANARY trigger never fires", max_paths=6000, time_budget_s=400, nlsat=False, witness_cap=30))
     # the actuator's own resampling: 1-minute data resampled to 5-minute bars
     for kind in ("at_time", "period"):
         out.append(
